@@ -204,6 +204,9 @@ def _site(exc):
         if "/repo/" in fn or fn.startswith(REPO):
             last = tb.tb_frame.f_code.co_name
         tb = tb.tb_next
+    if innermost is not None and innermost.startswith("/verif/") and getattr(exc, "pyvc_modelled", False):
+        # raised by a contract stub that *models* a library function's documented exceptional outcome
+        return last or "?"
     if innermost is not None and innermost.startswith("/verif/"):
         # exceptions raised by the library *models* (futures, containers, strings) are the modelled
         # behaviour of the real library; anything else raised under /verif is a harness/engine problem
